@@ -11,7 +11,8 @@ import Gen.Ast2Table
   `children_spec`, `unwrap_wrap`, `unwrap_wrap_elem`;
 * obligations on the regenerated table (kernel-checked by `decide`): `table_wellformed`,
   `table_wellformed_except`, `hard_defects_real`, `toast_total`, `toast_arms_consistent`,
-  `position_drops_known`, `extractor_understood_everything`;
+  `convs_justified`, `convs_used_are_known`, `position_drops_known`, `derived_pairs_known`,
+  `extractor_understood_everything`;
 * their combination: `rebuild_identity_table`, `rebuild_identity_defective`.
 -/
 namespace Ast2
